@@ -2,6 +2,7 @@ package variants
 
 import (
 	"math"
+	"strconv"
 	"time"
 
 	cconv "github.com/pip-services3-gox/pip-services3-commons-gox/convert"
@@ -227,9 +228,17 @@ func (c *TypeUnsafeVariantOperations) convertFromString(
 	result := EmptyVariant()
 	switch newType {
 	case Integer:
+		if exact, err := strconv.ParseInt(value.AsString(), 10, 64); err == nil {
+			result.SetAsInteger(int(exact))
+			return result, nil
+		}
 		result.SetAsInteger(cconv.IntegerConverter.ToInteger(value.AsString()))
 		return result, nil
 	case Long:
+		if exact, err := strconv.ParseInt(value.AsString(), 10, 64); err == nil {
+			result.SetAsLong(exact)
+			return result, nil
+		}
 		result.SetAsLong(int64(cconv.LongConverter.ToLong(value.AsString())))
 		return result, nil
 	case Float:
